@@ -419,3 +419,13 @@ func GuardLite(f func()) (panicked bool, val any) {
 	f()
 	return
 }
+
+// NoteAppend appends to a list-valued note.
+func (r *Run) NoteAppend(k string, v any) {
+	r.mu.Lock()
+	l, _ := r.notes[k].([]any)
+	if len(l) < 300 {
+		r.notes[k] = append(l, v)
+	}
+	r.mu.Unlock()
+}
